@@ -444,4 +444,67 @@ theorem runText_Ft (m : Nat → Nat) (s : St) (rs : Ref.St) (p : List Expr) (hne
   | brk l rs' => rw [hres] at hsim; exact hsim.elim
   | cont l rs' => rw [hres] at hsim; exact hsim.elim
 
+/-! ## The initial states -/
+
+theorem lookup_builtins (x : String) (v : Val) : ∀ (names : List String),
+    (names.map (fun n => (n, Val.builtin n))).lookup x = some v → v = .builtin x ∧ x ∈ names
+  | [], h => by simp at h
+  | n :: names, h => by
+    simp only [List.map_cons, List.lookup_cons] at h
+    by_cases hx : (x == n) = true
+    · rw [hx] at h
+      have hxn : x = n := by simpa using hx
+      subst hxn
+      simp only [Option.some.injEq] at h
+      exact ⟨h.symm, by simp⟩
+    · have hx' : (x == n) = false := by simpa using hx
+      rw [hx'] at h
+      obtain ⟨h1, h2⟩ := lookup_builtins x v names h
+      exact ⟨h1, List.mem_cons_of_mem _ h2⟩
+
+theorem initVars_lookup (x : String) (v : Val)
+    (h : ([("nil", Val.nil), ("null", Val.nil)] ++ VM.globalNames.map (fun n => (n, Val.builtin n))).lookup x = some v) :
+    v = .nil ∨ (v = .builtin x ∧ x ∈ VM.globalNames) := by
+  simp only [List.cons_append, List.nil_append, List.lookup_cons] at h
+  split at h
+  · left; injection h with h; exact h.symm
+  · split at h
+    · left; injection h with h; exact h.symm
+    · right; exact lookup_builtins x v _ h
+
+theorem globalNames_fo : ∀ n ∈ VM.globalNames, okSym n = true → n ∈ foBuiltins := by decide
+
+theorem relF_initSt (m : Nat → Nat) : RelF m initSt Ref.initSt 0 := by
+  have hsc : ∀ i, 0 < i → scopeOf initSt i = {} := fun i hi => by
+    cases i with
+    | zero => omega
+    | succ i => rfl
+  refine ⟨rfl, ?_, ⟨_, rfl, rfl, rfl⟩, ⟨false, ChainF.root _ rfl rfl rfl, FnChainF.root 0 (by decide) rfl ⟨[], rfl⟩⟩, ?_,
+    rfl, rfl, globals_initSt, ?_, fun _ _ _ _ _ _ _ => rfl⟩
+  · intro i x
+    cases i with
+    | zero =>
+      show ([("nil", Val.nil), ("null", Val.nil)] ++ Ref.globalNames.map (fun n => (n, Val.builtin n))).lookup x
+        = (([("nil", Val.nil), ("null", Val.nil)] ++ VM.globalNames.map (fun n => (n, Val.builtin n))).lookup x).map (trf m)
+      have hg : Ref.globalNames = VM.globalNames := rfl
+      rw [hg]
+      cases hl : ([("nil", Val.nil), ("null", Val.nil)] ++ VM.globalNames.map (fun n => (n, Val.builtin n))).lookup x with
+      | none => rfl
+      | some v =>
+        rcases initVars_lookup x v hl with rfl | ⟨rfl, _⟩ <;> rfl
+    | succ i => rfl
+  · intro i hi
+    cases i with
+    | zero => cases hi
+    | succ i => cases hi
+  · intro i x v hv
+    cases i with
+    | zero =>
+      rcases initVars_lookup x v hv with rfl | ⟨rfl, hx⟩
+      · exact valIn_of_const (fun _ _ _ => rfl)
+      · exact valIn_builtin (fun hok => globalNames_fo x hx hok)
+    | succ i => cases hv
+
+theorem topCtx_initSt : TopCtx initSt := ⟨rfl, rfl, by decide, by decide⟩
+
 end ZygoVerif.Sim
